@@ -38,8 +38,10 @@ func (v *Vue) evaluate(ctx VueContext, nodes []*html.Node, depth int) ([]*html.N
 		case html.ElementNode:
 			tag := node.Data
 
-			// Check for v-once early - skip if already rendered
-			if helpers.HasAttr(node, "v-once") {
+			// Check for v-once early - skip if already rendered.
+			// On a v-for element the check is made per iteration (evalFor
+			// evaluates each clone without its v-for attribute).
+			if helpers.HasAttr(node, "v-once") && !helpers.HasAttr(node, "v-for") {
 				vSeenID := helpers.GetAttr(node, "v-once-id")
 				if ctx.seen[vSeenID] {
 					// This v-once element has already been rendered, skip it
